@@ -350,6 +350,41 @@ func runC15(c *Ctx) {
 		c.verdict(okCopy && nCopy >= 1, c.nm(trigger)+" | the rebroadcast goroutine gets a fresh copy of the pending set (tx.Copy())", c.P.Pos(trigger.Pos()), "fresh map with copied transactions", "the rebroadcast goroutine shares the handler's pending map or its transactions (data race / sees later mutations)")
 	})
 
+	c.rule("C15.V2", "interval rebroadcasts are driven by a fixed-period ticker: the handler's select receives the interval signal from the C channel of one time.NewTicker(cfg.RebroadcastInterval) created before the loop (a per-iteration time.After restarts the countdown on every other event, so a busy handler never rebroadcasts between blocks)", func() {
+		fn := c.fn(fnBHandler)
+		nt := c.funcObj("time", "NewTicker")
+		tC := c.field("time", "Ticker", "C")
+		after := c.funcObj("time", "After")
+		tickers := find(fn, callTo(nt))
+		okTicker := len(tickers) == 1 && ir.LoopHeaderOf(tickers[0].Block()) == nil
+		if okTicker {
+			okTicker = loadsField(c.field("pushtx", "Config", "RebroadcastInterval"))(argsOf(tickers[0])[0])
+		}
+		c.verdict(okTicker, c.nm(fn)+" | one ticker with the configured interval, created before the loop", c.P.Pos(fn.Pos()), "time.NewTicker(b.cfg.RebroadcastInterval)", "the interval ticker is not created exactly once before the handler loop from cfg.RebroadcastInterval")
+		nTick, nAfter := 0, 0
+		ir.Instrs(fn, func(in ssa.Instruction) {
+			sel, ok := in.(*ssa.Select)
+			if !ok || ir.LoopHeaderOf(in.Block()) == nil {
+				return
+			}
+			for _, st := range sel.States {
+				if st.Dir != types.RecvOnly {
+					continue
+				}
+				if okTicker && ir.DerivesFrom(st.Chan, func(v ssa.Value) bool {
+					fa, ok := v.(*ssa.FieldAddr)
+					return ok && ir.FieldOfAddr(fa) == tC && fa.X == tickers[0].(ssa.Value)
+				}) {
+					nTick++
+				}
+				if ir.DerivesFrom(st.Chan, valIsCallTo(after)) {
+					nAfter++
+				}
+			}
+		})
+		c.verdict(nTick == 1 && nAfter == 0, c.nm(fn)+" | the loop waits on the ticker's channel", c.P.Pos(fn.Pos()), "case <-rebroadcastTicker.C", fmt.Sprintf("the handler loop has %d arm(s) on the ticker channel and %d on a per-iteration time.After", nTick, nAfter))
+	})
+
 	c.rule("C15.T2", "the broadcaster recognises the verdicts the client produces: pushtx.IsBroadcastError classifies an error by asserting its dynamic type (*BroadcastError), so every error the Broadcast callback (ChainService.sendTransaction and the closure wired into pushtx.Config.Broadcast) returns that stems from a peer's reject must be that *BroadcastError itself, not a wrapped error (the two sides agree: assertion-based classifier <-> unwrapped producer; an errors.As-based classifier would admit wrapping)", func() {
 		c.graph()
 		be := c.P.Named("pushtx", "BroadcastError")
